@@ -8,7 +8,6 @@ package webrtc
 // PeerConnection helpers. Nothing here uses github.com/pion/sdp.
 
 import (
-	"fmt"
 	"strconv"
 	"strings"
 	"testing"
@@ -211,5 +210,3 @@ func vAnsDirOf(s *vScanSection) string {
 
 	return s.Direction
 }
-
-func vAnsSprint(v any) string { return fmt.Sprint(v) }
